@@ -334,6 +334,11 @@ def leanchecker(module, timeout=1800):
 
 # ---------------------------------------------------------------- correspondence
 def _run_lines(exe, lines, env=None, timeout=3600):
+    if env is None:
+        # many harness processes run side by side: OpenMP teams must sleep, not spin, while waiting
+        env = dict(os.environ)
+        env.setdefault("OMP_WAIT_POLICY", "passive")
+        env.setdefault("GOMP_SPINCOUNT", "0")
     data = ("\n".join(lines) + "\n").encode()
     p = subprocess.run([exe], input=data, stdout=subprocess.PIPE, stderr=subprocess.PIPE, timeout=timeout, env=env)
     out = p.stdout.decode().splitlines()
